@@ -34,7 +34,9 @@ import (
 	"verifharness/mbt"
 )
 
-const maxReported = 8
+const maxPerKey = 2 // mismatches reported per failure class and driver process
+
+const maxReported = 4 // mismatches re-run and reported per driver process (the rest is counted)
 
 var validPaths = []string{"p1", "r1", "r1v", "r2", "ra"}
 
@@ -631,6 +633,7 @@ func main() {
 	_, behs := readBehaviours(f.In)
 	w := newWorld()
 	failed := map[int]bool{}
+	perKey := map[string]int{}
 	unreported := 0
 	steps := 0
 	var report func(r *run, k int, fl *failure)
@@ -638,11 +641,12 @@ func main() {
 		if failed[r.idx] {
 			return
 		}
-		if len(failed) >= maxReported {
+		if len(failed) >= maxReported || perKey[fl.key] >= maxPerKey {
 			unreported++
 			failed[r.idx] = true
 			return
 		}
+		perKey[fl.key]++
 		// re-run alone on fresh paths
 		repro := false
 		r2 := newRun(r.idx, r.steps)
